@@ -89,6 +89,21 @@ fn eof_n<const N: usize>() {
     kani::cover!(end > 0 && ref_utf8(&buf[..end]), "OPT_trailing line");
     core::mem::forget(src);
 }
+/// a trailing, unterminated line that is not valid UTF-8 is an error at end of stream (fixed shape: [x] 0xFF, and a lone lead byte 0xC3,
+/// so that a changed conversion with data-dependent loops stays decidable)
+#[kani::proof] #[kani::unwind(10)]
+fn c15_eof_invalid_tail() {
+    let x: u8 = if kani::any() { b'a' } else { b'z' };
+    let bad: u8 = if kani::any() { 0xFF } else { 0xC3 };
+    let mut src = BytesMut::with_capacity(16);
+    src.extend_from_slice(&[x, bad]);
+    let mut c = LinesCodec::default();
+    match c.decode_eof(&mut src) {
+        Err(e) => { assert!(e.kind() == io::ErrorKind::InvalidData, "invalid UTF-8 in the trailing line is InvalidData"); kani::cover!(true, "invalid tail rejected"); core::mem::forget(e); }
+        Ok(r) => { assert!(false, "a trailing line that is not valid UTF-8 must be an error, not a (repaired) string"); core::mem::forget(r); }
+    }
+    core::mem::forget(src);
+}
 #[kani::proof] #[kani::unwind(10)] fn c15_eof_0() { eof_n::<0>() }
 #[kani::proof] #[kani::unwind(10)] fn c15_eof_1() { eof_n::<1>() }
 #[kani::proof] #[kani::unwind(10)] fn c15_eof_2() { eof_n::<2>() }
